@@ -36,7 +36,7 @@ KINDS = {
     'slow': {'die': {'15': 0.3}},
     'stubborn': {'ignore': [15]},
 }
-ARRIVALS = ['idle', 'idle', 'startup', 'during-stop', 'during-restart', 'respawning-check']
+ARRIVALS = ['idle', 'idle', 'startup', 'during-stop', 'during-restart', 'respawning-check', 'during-long-stop']
 METHODS = ['quit', 'TERM', 'INT', 'QUIT']
 
 
@@ -48,8 +48,10 @@ def plan(tier, seed):
     out.append({'arrival': 'idle', 'how': 'quit', 'seed': seed, 'idx': len(out)})
     out.append({'arrival': 'idle', 'how': 'INT', 'seed': seed, 'idx': len(out)})
     out.append({'arrival': 'during-stop', 'how': 'QUIT', 'seed': seed, 'idx': len(out)})
-    for pre in ['live', 'dead', 'empty', 'garbage']:
+    for pre in ['live', 'dead', 'empty', 'garbage', 'own']:
         out.append({'arrival': 'idle', 'how': 'quit', 'prepid': pre, 'seed': seed, 'idx': len(out)})
+    # a long exclusive operation: the signal arrives many seconds before it ends
+    out.append({'arrival': 'during-long-stop', 'how': 'TERM', 'seed': seed, 'idx': len(out)})
     n = 0 if tier == 'quick' else 140
     for i in range(n):
         out.append({'random': True, 'seed': seed, 'idx': 100 + i})
@@ -65,6 +67,9 @@ def build(rnd, spec):
         ws.append({'name': 'w%d' % i, 'kind': kind, 'np': rnd.randint(1, 2), 'gt': 1.0, 'warmup': 0})
     if arrival in ('during-stop', 'during-restart'):
         ws[0]['kind'] = 'stubborn'
+    if arrival == 'during-long-stop':
+        ws[0]['kind'] = 'stubborn'
+        ws[0]['gt'] = 7.0
     if arrival == 'respawning-check':
         ws[0].update(kind='obedient', np=3, warmup=1)
     gw = 1 if arrival == 'startup' else 0
@@ -98,7 +103,7 @@ def run_case(spec):
     rnd = rng_for(spec['seed'], 'C08', spec['idx'])
     if spec.get('random'):
         spec = dict(spec, arrival=rnd.choice(ARRIVALS), how=rnd.choice(METHODS),
-                    prepid=rnd.choice([None] * 6 + ['live', 'dead', 'empty', 'garbage', 'negative', 'zero']))
+                    prepid=rnd.choice([None] * 6 + ['live', 'dead', 'empty', 'garbage', 'negative', 'zero', 'own']))
         if spec['prepid']:
             spec['arrival'] = 'idle'
     conf = build(rnd, spec)
@@ -141,8 +146,13 @@ def _case(d, conf, spec, pidfile, res):
             pre_content = '-7\n'
         elif pre == 'zero':
             pre_content = '0\n'
-        with open(pidfile, 'w') as f:
-            f.write(pre_content)
+        elif pre == 'own':
+            pre_content = None       # the daemon-to-be writes its own pid between fork and exec
+            d.strace = False         # strace would sit between us and the daemon's pid
+            d.preexec = lambda pf=pidfile: open(pf, 'w').write('%d\n' % os.getpid())
+        if pre_content is not None:
+            with open(pidfile, 'w') as f:
+                f.write(pre_content)
     d.start()
     if pre == 'live':
         rc = d.wait_exit(15)
@@ -193,7 +203,7 @@ def _case(d, conf, spec, pidfile, res):
             res.violation('C08/pidfile-not-written', 'pid file %s holds %r, daemon pid is %d' % (pidfile, content, d.pid))
     # the state to shut down
     inflight = None
-    if arrival == 'during-stop':
+    if arrival in ('during-stop', 'during-long-stop'):
         d.call('stop', name='w0')
         inflight = 'stop'
         time.sleep(0.2)
